@@ -268,17 +268,73 @@ Proof.
   - split; [exact Hs|]. split; [exact Hin|]. split; [exact Htn|]. split; [exact Ho | exact Hob].
 Qed.
 
+Lemma filter_all_false {A} (f : A -> bool) l : (forall x, In x l -> f x = false) -> filter f l = [].
+Proof.
+  induction l as [|x r IH]; intros H; [reflexivity|]. cbn [filter]. rewrite (H x (or_introl eq_refl)).
+  apply IH. intros y Hy. apply H. right. exact Hy.
+Qed.
+
+(* a system simulation of the added part: whatever happens inside stays inside *)
+Definition xframed (s s2 : sstate) (ob : list obs) : Prop :=
+  (forall c, isX c = false -> lookup c (s_dc s2) = lookup c (s_dc s) /\ lookup c (s_n s2) = lookup c (s_n s)) /\
+  wake_of s2 lv = wake_of s lv /\ (forall o, In o ob -> isX (obs_comp o) = true).
+
+Definition okkind (ck : comp * ckind) : Prop :=
+  match snd ck with
+  | KDev => True
+  | KSys lv' => isX (fst ck) = true /\
+                forall t chg s, let '(s2, _, _, ob) := inner' lv' t chg s in xframed s s2 ob
+  end.
+
+Lemma step_new_sys a a' c lv' : isX c = true ->
+  (forall t chg s, let '(s2, _, _, ob) := inner' lv' t chg s in xframed s s2 ob) ->
+  arel a a' ->
+  arel a (tick_step devf inner' lv conns' time roots' ext a' (c, KSys lv')).
+Proof.
+  intros Hc Hfr Hrel. unfold tick_step. cbn [fst snd].
+  destruct (in_extent conns' roots' (ta_touched a') c); [|exact Hrel].
+  destruct Hrel as [Hs [Hin [Ht [Ho Hob]]]].
+  assert (Htn : forall c0, isX c0 = false -> memb c0 (ta_touched a' ++ [c]) = memb c0 (ta_touched a)).
+  { intros c0 Hc0. rewrite memb_app, (Ht c0 Hc0). cbn [memb existsb].
+    destruct (Pos.eqb_spec c0 c) as [E|_]; [rewrite E, Hc in Hc0; discriminate|]. rewrite !orb_false_r. reflexivity. }
+  destruct (nonempty (get_d c (ta_in a')) || memb c roots').
+  - destruct (Pos.eqb_spec c ext_id) as [E|_]; [rewrite E, Hext in Hc; discriminate|].
+    destruct (Pos.eqb_spec c exp_id) as [E|_]; [rewrite E, Hexp in Hc; discriminate|].
+    specialize (Hfr time (get_d c (ta_in a')) (ta_s a')).
+    destruct (inner' lv' time (get_d c (ta_in a')) (ta_s a')) as [[[s1 ch] ca] ob1].
+    destruct Hfr as [Hdcn [Hwk Hox]]. destruct Hs as [Hdc [Hn Hw]].
+    assert (Hs1 : srel (ta_s a) s1).
+    { split; [|split].
+      - intros c0 Hc0. rewrite (proj1 (Hdcn c0 Hc0)). apply Hdc. exact Hc0.
+      - intros c0 Hc0. rewrite (proj2 (Hdcn c0 Hc0)). apply Hn. exact Hc0.
+      - rewrite Hwk. exact Hw. }
+    assert (Hrest : forall s2', srel (ta_s a) s2' ->
+           arel a {| ta_s := s2'; ta_in := accumulate (ta_in a') (route conns' c ch);
+                     ta_touched := ta_touched a' ++ [c]; ta_out := ta_out a'; ta_obs := ta_obs a' ++ ob1 |}).
+    { intros s2' H2. split; [exact H2|]. split; [|split; [exact Htn | split; [exact Ho|]]].
+      - intros c0 Hc0. cbn [ta_in]. rewrite accumulate_other by (apply route_new_keys; assumption). apply Hin. exact Hc0.
+      - cbn [ta_obs]. rewrite filter_app, Hob. rewrite (filter_all_false notX ob1); [apply app_nil_r|].
+        intros o Hoi. unfold notX. rewrite (Hox o Hoi). reflexivity. }
+    destruct ca as [w|]; [|apply Hrest; exact Hs1].
+    apply Hrest. destruct Hs1 as [H1 [H2 H3]]. split; [exact H1|]. split; [exact H2|].
+    rewrite wake_of_set_wake. rewrite (filter_upd_drop (fun k => negb (isX k))) by (rewrite Hc; reflexivity). exact H3.
+  - split; [exact Hs|]. split; [exact Hin|]. split; [exact Htn|]. split; [exact Ho | exact Hob].
+Qed.
+
 (* the components of the extended level, processed in any order that keeps the base order *)
-Lemma fold_rel order' : (forall ck, In ck order' -> snd ck = KDev) ->
+Lemma fold_rel order' : (forall ck, In ck order' -> okkind ck) ->
   forall a a', arel a a' ->
   arel (fold_left (tick_step devf inner lv cs0 time roots ext) (filter (fun ck : comp * ckind => negb (isX (fst ck))) order') a)
        (fold_left (tick_step devf inner' lv conns' time roots' ext) order' a').
 Proof.
   induction order' as [|[c k] r IH]; intros Hk a a' Hrel; [exact Hrel|].
-  assert (Ek : k = KDev) by (apply (Hk (c, k)); left; reflexivity). subst k.
-  cbn [fold_left filter fst]. destruct (isX c) eqn:Ec; cbn [negb].
-  - apply IH; [intros ck H; apply Hk; right; exact H|]. apply step_new; assumption.
-  - cbn [fold_left]. apply IH; [intros ck H; apply Hk; right; exact H|]. apply step_old; assumption.
+  pose proof (Hk (c, k) (or_introl eq_refl)) as Hck. unfold okkind in Hck. cbn [fst snd] in Hck.
+  cbn [fold_left filter fst]. destruct k as [|lv'].
+  - destruct (isX c) eqn:Ec; cbn [negb].
+    + apply IH; [intros ck H; apply Hk; right; exact H|]. apply step_new; assumption.
+    + cbn [fold_left]. apply IH; [intros ck H; apply Hk; right; exact H|]. apply step_old; assumption.
+  - destruct Hck as [Ec Hfr]. rewrite Ec. cbn [negb].
+    apply IH; [intros ck H; apply Hk; right; exact H|]. apply step_new_sys; assumption.
 Qed.
 End NI.
 
@@ -288,7 +344,7 @@ Theorem tick_noninterference cfg cfg' devf inner inner' (isX : comp -> bool) lv 
   let l' := level_of cfg' lv in
   l_order l = filter (fun ck : comp * ckind => negb (isX (fst ck))) (l_order l') ->
   l_conns l = filter (oldc isX) (l_conns l') ->
-  (forall ck, In ck (l_order l') -> snd ck = KDev) ->
+  (forall ck, In ck (l_order l') -> okkind inner' isX lv ck) ->
   (forall k, In k (l_conns l') -> isX (out_comp k) = isX (in_comp k)) ->
   isX ext_id = false -> isX exp_id = false ->
   (forall c, isX c = false -> memb c roots' = memb c roots) ->
@@ -302,9 +358,9 @@ Proof.
   { unfold all_of. cbn [filter fst]. rewrite Hext. cbn [negb]. rewrite filter_app. cbn [filter fst].
     rewrite Hexp. cbn [negb]. rewrite Hord. reflexivity. }
   rewrite Hall, Hcon.
-  assert (Hk' : forall ck, In ck (all_of l') -> snd ck = KDev).
-  { unfold all_of. intros ck [E|Hi]; [subst ck; reflexivity|]. apply in_app_iff in Hi.
-    destruct Hi as [Hi|[E|[]]]; [apply Hk; exact Hi | subst ck; reflexivity]. }
+  assert (Hk' : forall ck, In ck (all_of l') -> okkind inner' isX lv ck).
+  { unfold all_of. intros ck [E|Hi]; [subst ck; exact I|]. apply in_app_iff in Hi.
+    destruct Hi as [Hi|[E|[]]]; [apply Hk; exact Hi | subst ck; exact I]. }
   pose proof (fold_rel devf inner inner' isX lv (l_conns l') Hsep Hext Hexp time roots roots' Hroots ext (all_of l') Hk'
                 {| ta_s := s; ta_in := []; ta_touched := []; ta_out := []; ta_obs := [] |}
                 {| ta_s := s'; ta_in := []; ta_touched := []; ta_out := []; ta_obs := [] |}) as H.
